@@ -415,7 +415,7 @@ fn zone_kind() -> BoxedStrategy<ZoneKind> {
     .boxed()
 }
 
-fn case() -> BoxedStrategy<Case> {
+pub fn case() -> BoxedStrategy<Case> {
     (zone_kind(), 0usize..64, 0u8..8, -172_800i128..=172_800, 0i128..1_000_000_000, 0u8..8, 0u8..4, 0u8..4, 0u8..8, crate::gen::instant_ns())
         .prop_map(|(zone, ti, place, dsec, dns, route, dis, off, gk, uniform)| {
             let z = zone.zone();
